@@ -72,9 +72,10 @@ func (env *Env) eval(e *hast.Expr) (Val, bool, error) {
 	switch e.K {
 	case hast.ENum:
 		f, err := strconv.ParseFloat(e.Text, 64)
-		if err != nil {
+		if err != nil && !errors.Is(err, strconv.ErrRange) {
 			return None, false, fault("bad literal " + e.Text)
 		}
+		// a decimal literal beyond the range of a float64 is the infinity a correctly rounding conversion gives
 		return N(f), true, nil
 	case hast.EBool:
 		return B(e.B), true, nil
